@@ -275,7 +275,10 @@ Fixpoint unused_loop (ps : list param) (r : dict) : M dict :=
 
 Definition declared (k : name) : bool := existsb (fun p => Nat.eqb (p_name p) k) (d_params dc).
 
-Definition all_flask_json : bool := forallb p_flask_json (d_params dc).
+(* all([isinstance(p, FlaskJsonParameter) for p in parameter_dict.values()]): over the Parameters the dictionary keeps,
+   i.e. the last declaration of every name *)
+Definition all_flask_json : bool :=
+  forallb (fun p => match lookup_param (p_name p) with Some q => p_flask_json q | None => true end) (d_params dc).
 
 (* the `k == 'args' and wants_args` branch of the positional loop (since /repo 1908fef, 137d0c4): the positionals collected
    by the var-positional parameter are zipped, by position, with the Parameters not used so far (declaration order); a
